@@ -31,7 +31,7 @@ CLAIM = dict(
          "modelled as exact comparisons and inputs keep a >=1e3 margin; numpy matmul/det/inv by contract. "
          "Result.transform / PointGroup.symmetrize(result) glue is checked on the real code, not modelled. "
          "Repaired while building this check: a generator listed twice is now read once (was: size 5 for ['C4z','C4z'], "
-         "symmetrize not a projection); rank-0 tensors given as 0-d arrays are accepted (was: IndexError).",
+         "symmetrize not a projection); rank-0 tensors given as 0-d arrays are accepted (was: IndexError / TypeError in gen_symmetric_tensor(0, ..)).",
 )
 TRUSTED = [
     "modelled: PointSymmetry.__init__/__mul__/__eq__/transform_reduced_vector/rotate/transform_tensor, the closure loop of "
@@ -519,7 +519,7 @@ def corr(ctx):
     corr_side_conditions(ctx, lines, checks)
 
     fam_names = ["cubic", "tetra", "ortho", "hex", "rhombo", "cubic", "tetra", "hex"]
-    ngroups = ctx.n(10, 40)
+    ngroups = ctx.n(7, 40)
     gen_lines, gen_info = [], []
     for ig in range(ngroups):
         famname = fam_names[ig % len(fam_names)] if ig < len(fam_names) else rng.choice(fam_names)
@@ -535,19 +535,11 @@ def corr(ctx):
             gen_info.append((fam, grp, elems, case))
             ctx.count(f"corr.family={famname}")
             ctx.count(f"corr.order={len(elems)}")
-    gen_out = ctx.lean(gen_lines)
-    for (fam, grp, elems, case), line, out in zip(gen_info, gen_lines, gen_out):
-        ctx.case(signature=line, nontrivial=len(elems) >= 4)
-        if out == "ERR":
-            ctx.mismatch("model could not generate a finite group", dict(case, line=line))
-            continue
-        mel = parse_elems(out)
+    # (one driver run for everything: the lines below use the code's element lists, which the `gen` lines tie to the model)
+    for (fam, grp, elems, case), line in zip(gen_info, gen_lines):
         cel = [([[Fr(x) for x in r] for r in e[0]], e[1], e[2]) for e in elems]
-        if mel != cel:
-            ctx.mismatch(f"PointGroup.symmetries: model has {len(mel)} elements, code {len(cel)}; first difference at "
-                         f"{next((i for i, (a, b) in enumerate(zip(mel, cel)) if a != b), min(len(mel), len(cel)))}",
-                         dict(case, line=line))
-            continue
+        lines.append(line)
+        checks.append(("gen", case, ("elems", cel)))
         w = wire_elems(elems)
         n = len(elems)
         # --- multiplication table
@@ -695,10 +687,20 @@ def corr(ctx):
 
     out = ctx.lean(lines)
     for line, o, (kind, case, exp) in zip(lines, out, checks):
-        ctx.case(signature=line, nontrivial=kind in ("table", "star", "tt", "sym", "mul", "checkbasis", "symgrid"))
+        ctx.case(signature=line, nontrivial=kind in ("gen", "table", "star", "tt", "sym", "mul", "checkbasis", "symgrid"))
         if isinstance(exp, str):
             if o != exp:
                 ctx.mismatch(f"{kind}: model={o[:200]} code={exp[:200]}", dict(case, line=line[:2000]))
+        elif exp[0] == "elems":
+            if o == "ERR":
+                ctx.mismatch("model could not generate a finite group", dict(case, line=line))
+            else:
+                mel = parse_elems(o)
+                cel = exp[1]
+                if mel != cel:
+                    ctx.mismatch(f"PointGroup.symmetries: model has {len(mel)} elements, code {len(cel)}; first difference at "
+                                 f"{next((i for i, (a, b) in enumerate(zip(mel, cel)) if a != b), min(len(mel), len(cel)))}",
+                                 dict(case, line=line))
         elif exp[0] == "vecs":
             mv = [] if o == "_" else [[Fr(t) for t in v.split(",")] for v in o.split(";")]
             cv = np.asarray(exp[1], dtype=float).reshape(-1, 3)
@@ -720,8 +722,6 @@ def corr(ctx):
     if lines:
         ctx.sample(dict(protocol_line=lines[0][:300], model=out[0][:300]))
         ctx.sample(dict(protocol_line=lines[-1][:300], model=out[-1][:300]))
-    if gen_lines:
-        ctx.sample(dict(protocol_line=gen_lines[0][:300], model=gen_out[0][:300]))
 
 
 # ------------------------------------------------------------------------------------------------
@@ -769,6 +769,47 @@ def oracle_group(ctx, fam, names, trs, gens, cl, grp, case):
             break
     if not grp.check_basis_symmetry(fam.A) or not grp.check_basis_symmetry(grp.recip_lattice):
         ctx.fail("check_basis_symmetry rejects the group's own lattice", case)
+    # other bases: accepted exactly when every operation maps the lattice they span to itself (exact reference)
+    rng = ctx.rng
+    elems = code_elements(fam, grp)
+    for _ in range(4):
+        while True:
+            bm = [[Fr(rng.randint(-3, 3), rng.choice([1, 1, 2])) for _ in range(3)] for _ in range(3)]
+            if fdet(bm) != 0:
+                break
+        style = rng.choice(["random", "sublattice", "sheared"])
+        if style == "sublattice":
+            bm = fmul([[Fr(rng.choice([1, 2, 3])) if i == j else Fr(0) for j in range(3)] for i in range(3)], fam.basis_real)
+        elif style == "sheared":
+            sh = [[Fr(1), Fr(rng.choice([0, 1, -1, 2])), Fr(0)], [Fr(0), Fr(1), Fr(rng.choice([0, 1]))], [Fr(0), Fr(0), Fr(1)]]
+            bm = fmul(sh, fam.basis_real)       # another basis of the same lattice: must be accepted
+        binv = finv(bm)
+        expect = True
+        for (m, inv, tr) in elems:
+            N = fmul(fmul(bm, ftrans(fmat(m))), binv)
+            if any(x.denominator != 1 for r in N for x in r):
+                expect = False
+                break
+        basis_code = np.array([[float(x) for x in r] for r in bm]) @ fam.T.T
+        got = bool(grp.check_basis_symmetry(basis_code))
+        ctx.count(f"oracle.check_basis.{style}.expected={expect}")
+        if got != expect:
+            ctx.fail(f"check_basis_symmetry returns {got} for a basis whose lattice is "
+                     f"{'invariant' if expect else 'NOT invariant'} under the group ({style})",
+                     dict(case, basis=[[str(x) for x in r] for r in bm]))
+        nk = [rng.choice([1, 2, 3, 4, 6]) for _ in range(3)]
+        if rng.random() < 0.6:
+            nk[1] = nk[0]
+        # symmetric_grid(nk): the basis recip/nk must be invariant
+        bg = [[fam.basis_recip[i][j] / nk[i] for j in range(3)] for i in range(3)]
+        bginv = finv(bg)
+        expect_g = all(x.denominator == 1 for (m, inv, tr) in elems
+                       for r in fmul(fmul(bg, ftrans(fmat(m))), bginv) for x in r)
+        got_g = bool(grp.symmetric_grid(nk))
+        ctx.count(f"oracle.symmetric_grid.expected={expect_g}")
+        if got_g != expect_g:
+            ctx.fail(f"symmetric_grid({nk}) returns {got_g}, but the grid is "
+                     f"{'mapped' if expect_g else 'NOT mapped'} to itself by the group", dict(case, nk=nk))
 
 
 def oracle_tensors(ctx, fam, grp, case, scale):
@@ -970,10 +1011,15 @@ def oracle_special(ctx, scale):
             f = (tT.factor if s.TR else 1) * (tI.factor if s.Inv else 1)
             if np.shape(y) != () or abs(complex(y) - f * (2.0 + 1.0j)) > 1e-12:
                 ctx.fail(f"transform_tensor of a 0-d scalar gives {y}, expected {f * (2.0 + 1.0j)}", case)
+        with ctx.attempt("gen_symmetric_tensor / get_symmetric_components for rank 0", case):
             a = g.gen_symmetric_tensor(0, True, False)
+            b = g.gen_symmetric_tensor(0, False, False)
             comps = g.get_symmetric_components(0, False, True)
-            if np.shape(a) != () or not isinstance(comps, list):
-                ctx.fail("gen_symmetric_tensor / get_symmetric_components fail for rank 0", case)
+            has_tr = any(s.TR for s in g.symmetries)
+            if np.shape(a) != () or np.shape(b) != () or not isinstance(comps, list):
+                ctx.fail("gen_symmetric_tensor / get_symmetric_components give a wrong type for rank 0", case)
+            elif (has_tr and abs(float(a)) > 1e-14) or not (0 < float(b) < 1):
+                ctx.fail(f"gen_symmetric_tensor(0, ..) gives a TR-odd scalar {a} (group with TR: {has_tr}) / even scalar {b}", case)
 
 
 def oracle(ctx, scale):
